@@ -17,10 +17,16 @@ EXTENDS AigerRef, Json, IOUtils, TLC
 Rec == ndJsonDeserialize(IOEnv.TRACE)
 VARIABLES l, active, vis, binary, stream, ty, items, failed, gupos
 tvars == <<l, active, vis, binary, stream, ty, items, failed, gupos>>
+\* stream: "all" every entry of every section is read; "some" sections are left early (the transition functions pass
+\* over the rest): the items are then a subsequence of the reference's; "none": parse() returns one value at the end
+RECURSIVE IsSubseq(_, _)
+IsSubseq(a, b) == IF a = <<>> THEN TRUE ELSE IF b = <<>> THEN FALSE
+                  ELSE IF Head(a) = Head(b) THEN IsSubseq(Tail(a), Tail(b)) ELSE IsSubseq(a, Tail(b))
+ItemsOk(got, want) == CASE stream = "all" -> got = want [] stream = "some" -> IsSubseq(got, want) [] OTHER -> TRUE
 R == Rec[l]
 IsEv(e) == l <= Len(Rec) /\ R.ev = e /\ l' = l + 1
 NonItems == {<<"nohdr">>, <<"section">>, <<"nocomment">>}
-Aiger == {"aag", "aig", "aag_parse", "aig_parse"}
+Aiger == {"aag", "aig", "aag_parse", "aig_parse", "aag_skip", "aig_skip"}
 
 \* a position lies on the token lo..hi (hi: one past its last byte; an empty token is the position lo itself)
 OnToken(p, lo, hi) == p >= lo /\ (p < hi \/ p = lo)
@@ -29,8 +35,9 @@ TReset ==
   /\ IsEv("reset")
   /\ active' = (R.kind = "parser" /\ R.parser \in Aiger /\ ~R.faulty)
   /\ vis' = (IF R.kind = "parser" /\ R.parser \in Aiger THEN R.input ELSE <<>>)
-  /\ binary' = (R.kind = "parser" /\ R.parser \in {"aig", "aig_parse"})
-  /\ stream' = (R.kind = "parser" /\ R.parser \in {"aag", "aig"})
+  /\ binary' = (R.kind = "parser" /\ R.parser \in {"aig", "aig_parse", "aig_skip"})
+  /\ stream' = (IF R.kind = "parser" /\ R.parser \in {"aag", "aig"} THEN "all"
+                ELSE IF R.kind = "parser" /\ R.parser \in {"aag_skip", "aig_skip"} THEN "some" ELSE "none")
   /\ ty' = (IF R.kind = "parser" /\ R.parser \in Aiger THEN R.lit ELSE "usize")
   /\ items' = <<>> /\ failed' = "" /\ gupos' = -1
 
@@ -49,10 +56,10 @@ TGu ==
 TEnd ==
   /\ active /\ IsEv("pend")
   /\ \E r \in {ReadLoc(vis, binary, ty)} :
-       /\ failed = "" => r[1] = "ok" /\ (stream => r[2] = items)
+       /\ failed = "" => r[1] = "ok" /\ ItemsOk(items, r[2])
        /\ failed = "syntax" => /\ r[1] = "bad"
                                /\ OnToken(gupos, r[3], r[4])
-                               /\ (stream => r[2] = items)
+                               /\ ItemsOk(items, r[2])
   /\ UNCHANGED <<active, vis, binary, stream, ty, items, failed, gupos>>
 
 TSkip ==
@@ -61,7 +68,7 @@ TSkip ==
      \/ active /\ R.ev \notin {"reset", "pret", "pend", "gu"}
   /\ UNCHANGED <<active, vis, binary, stream, ty, items, failed, gupos>>
 
-TInit == l = 1 /\ active = FALSE /\ vis = <<>> /\ binary = FALSE /\ stream = FALSE /\ ty = "usize" /\ items = <<>> /\ failed = "" /\ gupos = -1
+TInit == l = 1 /\ active = FALSE /\ vis = <<>> /\ binary = FALSE /\ stream = "none" /\ ty = "usize" /\ items = <<>> /\ failed = "" /\ gupos = -1
 TNext == TReset \/ TRet \/ TGu \/ TEnd \/ TSkip
 TSpec == TInit /\ [][TNext]_tvars
 
